@@ -181,9 +181,11 @@ func Explore(cfg Config) (Stats, []Violation) {
 			cleanup(s1)
 			s2, o2 := runScenario(&cfg, nil, true)
 			cleanup(s2)
-			if o1.End == "panic" {
+			if o1.End == "panic" && strings.Contains(o1.PanicMsg, "harness") && !strings.Contains(o1.PanicMsg, "gnet/v2.(") {
 				panic("sched: scenario " + cfg.Name + " panics on the default schedule: " + o1.PanicMsg)
 			}
+			// (a panic inside the code under test on the default schedule is a finding like any other:
+			// the base bound below reports it)
 			if sameDecisions(o1.Decisions, o2.Decisions) && s1.Observe() == s2.Observe() && o1.End == o2.End {
 				ok = true
 			} else {
